@@ -9,6 +9,7 @@ import json
 import logging
 import sqlite3
 import uuid
+import weakref
 from contextlib import asynccontextmanager
 from datetime import datetime, timezone
 from typing import Any, AsyncGenerator, Generic, Literal
@@ -31,6 +32,12 @@ from workflows.context.state_store import (
 logger = logging.getLogger(__name__)
 
 MODEL_T = TypeVar("MODEL_T", bound=BaseModel, default=DictState)  # type: ignore[reportGeneralTypeIssues]
+
+# One lock per (database, run): store objects are created per step invocation, so a
+# per-object lock would not exclude concurrent steps of the same run.
+_RUN_LOCKS: weakref.WeakValueDictionary[tuple[str, str], asyncio.Lock] = (
+    weakref.WeakValueDictionary()
+)
 
 
 class SqliteSerializedState(BaseModel):
@@ -74,7 +81,11 @@ class SqliteStateStore(Generic[MODEL_T]):
     @functools.cached_property
     def _lock(self) -> asyncio.Lock:
         """Lazy lock initialization for Python 3.14+ compatibility."""
-        return asyncio.Lock()
+        key = (self._db_path, self._run_id)
+        lock = _RUN_LOCKS.get(key)
+        if lock is None:
+            lock = _RUN_LOCKS[key] = asyncio.Lock()
+        return lock
 
     def _connect(self) -> sqlite3.Connection:
         if self._shared_conn is not None:
@@ -200,26 +211,10 @@ class SqliteStateStore(Generic[MODEL_T]):
 
     async def set_state(self, state: MODEL_T) -> None:
         """Replace or merge into the current state model."""
-        conn = self._connect()
-        try:
-            cursor = conn.cursor()
-            cursor.execute(
-                "SELECT state_json FROM workflow_state WHERE run_id = ?",
-                (self._run_id,),
-            )
-            row = cursor.fetchone()
-
-            if row is None:
-                self._save_state(state, conn)
-                conn.commit()
-                return
-
-            current_state = self._deserialize_state(row[0])
+        async with self._lock:
+            current_state = self._load_state()
             merged = merge_state(current_state, state)
-            self._save_state(merged, conn)  # type: ignore[arg-type]
-            conn.commit()
-        finally:
-            self._release(conn)
+            self._save_state(merged)  # type: ignore[arg-type]
 
     async def get(self, path: str, default: Any = ...) -> Any:
         """Get a nested value using dot-separated paths."""
